@@ -4,8 +4,8 @@ import LdkModel.Props.C10
 #print axioms Ldk.C10.reload_node_total
 #print axioms Ldk.C10.stale_manager_closes
 #print axioms Ldk.C10.closed_only_if_stale
-#print axioms Ldk.C10.stale_closes_from_monitor
+#print axioms Ldk.C10.stale_closes_from_monitor_partial
 #print axioms Ldk.C10.resume_consistent_world
-#print axioms Ldk.C10.resume_consistent
-#print axioms Ldk.C10.repeated_crash_idempotent
-#print axioms Ldk.C10.repeated_crash_closed
+#print axioms Ldk.C10.resume_consistent_partial
+#print axioms Ldk.C10.repeated_crash_idempotent_partial
+#print axioms Ldk.C10.repeated_crash_closed_partial
